@@ -100,14 +100,18 @@ func (e *c05HTTPEnv) finishRec(r *c05Rec, client int) {
 
 func (e *c05HTTPEnv) setCurOp(client int, op c05Op, cl *c05Client, logID [sha256.Size]byte) {
 	co := c05CurOp{kind: op.K}
+	h := cl.held
+	if op.K == "S" {
+		co.kind, h = "R", cl.fetched
+	}
 	if e.kind == "dynamodb" {
 		co.id = string(logID[:])
 	} else {
 		co.id = fmt.Sprintf("%x", logID)
 	}
-	if op.K == "R" && cl.held != nil {
-		co.held = append([]byte{}, cl.held.Bytes()...)
-		if cp, ok := cl.held.(*eTagCheckpoint); ok {
+	if co.kind == "R" && h != nil {
+		co.held = append([]byte{}, h.Bytes()...)
+		if cp, ok := h.(*eTagCheckpoint); ok {
 			co.etag = cp.eTag
 		}
 	}
@@ -151,7 +155,7 @@ func (e *c05HTTPEnv) run(sc c05Scenario, schedule []int, fresh bool) (*c05Exec, 
 		clients[i] = &c05Client{b: e.backends[i]}
 	}
 	doOp := func(cl *c05Client, client int, op c05Op) (c05Rec, bool) {
-		if op.K == "R" && cl.held == nil {
+		if (op.K == "R" && cl.held == nil) || (op.K == "S" && cl.fetched == nil) {
 			return c05Rec{}, true
 		}
 		slot := client
@@ -185,7 +189,13 @@ func (e *c05HTTPEnv) run(sc c05Scenario, schedule []int, fresh bool) (*c05Exec, 
 			e.finishRec(&r, i)
 			ex.Hist = append(ex.Hist, r)
 		}
+		if sc.Share {
+			for i := 1; i < k; i++ {
+				clients[i].shareFrom(clients[0])
+			}
+		}
 	}
+	f.setChunked(sc.Chunked)
 	f.setPark(true)
 	recs := make([][]c05Rec, k)
 	parked := map[int]*c05Req{}
@@ -284,6 +294,13 @@ func (e *c05HTTPEnv) run(sc c05Scenario, schedule []int, fresh bool) (*c05Exec, 
 	r, _ := doOp(fc, -2, c05Op{K: "F"})
 	ex.Hist = append(ex.Hist, r)
 	sort.SliceStable(ex.Hist, func(i, j int) bool { return ex.Hist[i].Call < ex.Hist[j].Call })
+	for i, cl := range clients {
+		for _, m := range cl.aliasViolations() {
+			ex.Alias = append(ex.Alias, fmt.Sprintf("client %d: %s", i, m))
+		}
+	}
+	ex.Alias = append(ex.Alias, fc.aliasViolations()...)
+	f.setChunked(false)
 	f.mu.Lock()
 	ex.Shapes = append(ex.Shapes, f.shapes...)
 	f.mu.Unlock()
